@@ -57,7 +57,7 @@ export function encodeMap(rng, M, depth, out) {
   const choices = ['literal'];
   if (depth > 0) {
     choices.push('alias', 'interface', 'paren', 'exportAlias', 'exportInterface', 'indexWrapper');
-    if (M.length >= 2) choices.push('intersection', 'mergedInterface', 'extends', 'extendsTwo', 'extendsUtility');
+    if (M.length >= 2) choices.push('intersection', 'mergedInterface', 'extends', 'extendsTwo', 'extendsUtility', 'sameBaseTwice');
     if (M.length >= 3) choices.push('mergedWithExtends');
     if (M.length >= 1) choices.push('emptyExtends');
     if (M.every((m) => m.optional || m.member === 'getter') && M.some((m) => m.member !== 'getter') && !M.some((m) => m.member === 'getter')) choices.push('partial');
@@ -132,6 +132,21 @@ export function encodeMap(rng, M, depth, out) {
       const [a, b] = split(rng, M);
       return `${encodeMap(rng, a, depth - 1, out)} & ${encodeMap(rng, b, depth - 1, out)}`;
     }
+    case 'sameBaseTwice': {
+      // one declared base referenced twice, under different utility wrappers: Pick<B, K> & [Partial<]Omit<B, K>[>]
+      const [a, b] = split(rng, M);
+      let mode = rng.pick(['plain', 'partialRest', 'requiredPick']);
+      if (mode === 'partialRest' && !(b.every((m) => m.optional) && !b.some((m) => m.member === 'getter'))) mode = 'plain';
+      if (mode === 'requiredPick' && !(a.every((m) => !m.optional) && !a.some((m) => m.member === 'getter'))) mode = 'plain';
+      const baseMembers = mode === 'partialRest' ? [...a, ...b.map((m) => ({ ...m, optional: rng.bool() }))] : mode === 'requiredPick' ? [...a.map((m) => ({ ...m, optional: rng.bool() })), ...b] : M;
+      const n = fresh('B');
+      if (rng.bool()) decl(`type ${n} = ${literal(rng.shuffle(baseMembers))};`); else decl(`interface ${n} { ${rng.shuffle(baseMembers).map(memberSrc).join('; ')} }`);
+      const keys = a.map((m) => JSON.stringify(m.key)).join(' | ');
+      ops.push('sameBaseTwice:' + mode);
+      const picked = mode === 'requiredPick' ? `Required<Pick<${n}, ${keys}>>` : `Pick<${n}, ${keys}>`;
+      const rest = mode === 'partialRest' ? `Partial<Omit<${n}, ${keys}>>` : `Omit<${n}, ${keys}>`;
+      return rng.bool() ? `${picked} & ${rest}` : `${rest} & ${picked}`;
+    }
     case 'partial': {
       const inner = M.map((m) => ({ ...m, optional: rng.bool() }));
       return `Partial<${encodeMap(rng, inner, depth - 1, out)}>`;
@@ -173,9 +188,13 @@ function encodeInterfaceName(rng, M, depth, out) {
 
 /** assemble a module: declarations before/after the call, optional local scope with a shadowed outer type */
 export function assembleModule(rng, { decls, call, imports = ['defineComponent'], order, local, extra = '' }) {
-  const layout = imports.length > 1 ? rng.pick(['one', 'one', 'split', 'splitType', 'splitTypeFirst', 'inlineType']) : 'one';
+  // several import declarations from 'vue' are ordinary; only one of them names defineComponent
+  const layout = imports.length > 1 ? rng.pick(['one', 'one', 'split', 'splitType', 'splitTypeFirst', 'inlineType']) : rng.pick(['one', 'one', 'one', 'extraAfter', 'extraTypeAfter', 'extraBefore']);
   const others = imports.filter((x) => x !== 'defineComponent');
-  const imp = layout === 'one' ? `import { ${imports.join(', ')} } from "vue";`
+  const imp = layout === 'extraAfter' ? 'import { defineComponent } from "vue";\nimport { ref as unusedRef, h as unusedH } from "vue";'
+    : layout === 'extraTypeAfter' ? 'import { defineComponent } from "vue";\nimport type { PropType } from "vue";'
+    : layout === 'extraBefore' ? 'import { ref as unusedRef } from "vue";\nimport { defineComponent } from "vue";'
+    : layout === 'one' ? `import { ${imports.join(', ')} } from "vue";`
     : layout === 'split' ? `import { defineComponent } from "vue";\nimport { ${others.join(', ')} } from "vue";`
     : layout === 'splitType' ? `import { defineComponent } from "vue";\nimport type { ${others.join(', ')} } from "vue";`
     : layout === 'splitTypeFirst' ? `import type { ${others.join(', ')} } from "vue";\nimport { defineComponent } from "vue";`
